@@ -429,6 +429,11 @@ fn exec<S: Service>(w: &mut World<S>, t: &[&str]) -> String {
             if t[0] == "csub" && w.sub_labels.contains(&n(t[1])) { return "dup".into(); }
             let line: Vec<&str> = t.iter().cloned().filter(|x| !x.starts_with('@')).collect();
             let (res, newid) = w.children.get_mut(&k).unwrap().ask(&line.join(" "));
+            if res == "PANIC" {
+                // a fatal panic inside the implementation ends the case, in whichever process it happened
+                for (_, mut c) in std::mem::take(&mut w.children) { let _ = c.child.kill(); let _ = c.child.wait(); }
+                panic!("panic in the child process");
+            }
             if t[0] == "cpub" && res == "ok" {
                 w.pub_labels.insert(n(t[1])); w.pub_node.insert(n(t[1]), k);
                 if let Some(id) = newid {
